@@ -102,9 +102,23 @@ def char_classes(pat):
     return out
 
 
+_CONST_SCOPE = []
+
+
 def const_str(node):
     if isinstance(node, ast.Constant) and isinstance(node.value, str):
         return node.value
+    if isinstance(node, ast.Name) and _CONST_SCOPE:
+        # a name assigned exactly once in the function (or at module level) to a string literal
+        fn, mod = _CONST_SCOPE[-1]
+        defs = [st for st in ast.walk(fn) if isinstance(st, ast.Assign) and any(isinstance(t, ast.Name) and t.id == node.id for t in st.targets)]
+        stores = [n for n in ast.walk(fn) if isinstance(n, ast.Name) and n.id == node.id and isinstance(n.ctx, ast.Store)]
+        if len(defs) == 1 and len(stores) == 1 and isinstance(defs[0].value, ast.Constant) and isinstance(defs[0].value.value, str):
+            return defs[0].value.value
+        if not stores and mod is not None:
+            g = mod.globals.get(node.id)
+            if isinstance(g, ast.Constant) and isinstance(g.value, str):
+                return g.value
     return None
 
 
@@ -125,6 +139,7 @@ class SplitUse:
 
 def analyse_splits(f, R):
     fn = f.node
+    _CONST_SCOPE[:] = [(fn, f.module)]
     out = []
     for st in walk_no_nested(fn):
         if isinstance(st, ast.Assign) and isinstance(st.value, ast.Call) and dotted(st.value.func) == "re.split" \
@@ -178,6 +193,7 @@ def analyse_splits(f, R):
 def rule_p1_p2(f, R, expect_splits):
     """P1 stride = groups+1 with residues {0..g} once each from the first match; P2 the leading segment is
     dropped unconditionally and the pattern can match at offset 0 of its subject."""
+    _CONST_SCOPE[:] = [(f.node, f.module)]
     splits = analyse_splits(f, R)
     if len(splits) < expect_splits:
         raise AnalysisError("P1", f"expected {expect_splits} re.split call(s) with capture groups in {f.qualname}, found {len(splits)}", f.where())
@@ -236,6 +252,7 @@ def rule_p1_p2(f, R, expect_splits):
 def rule_roles(f, R, splits, letters_residue_by_split, body_kind):
     """The record fields are used in their format roles: the letters field goes through the angular-momentum
     table, the body field is split into rows (or into shells), field 0 of the element split keys the result."""
+    _CONST_SCOPE[:] = [(f.node, f.module)]
     fn = f.node
     D = Defs(fn)
     for su, letters_res in zip(splits, letters_residue_by_split):
@@ -300,6 +317,7 @@ def _is_angmom_table(D, node):
 
 def rule_p4(f, R):
     """The angular-momentum table maps s p d f g h i k to 0..7 and is consulted through .lower()."""
+    _CONST_SCOPE[:] = [(f.node, f.module)]
     fn = f.node
     D = Defs(fn)
     found = 0
@@ -335,6 +353,7 @@ def rule_p4(f, R):
 
 
 def row_patterns(f):
+    _CONST_SCOPE[:] = [(f.node, f.module)]
     out = []
     for c in calls_in(f.node, "re.search") + calls_in(f.node, "re.match") + calls_in(f.node, "re.fullmatch"):
         pat = const_str(c.args[0]) if c.args else None
@@ -384,6 +403,7 @@ def rule_p9(f, R):
     """Row completeness: the row pattern is applied to every line of the record's text - the loop iterates the complete
     `.split("\\n")` / `.splitlines()` of the text (no prefix, stride or count taken from the header), and a line that does
     not match is skipped with `continue` (never ends the loop)."""
+    _CONST_SCOPE[:] = [(f.node, f.module)]
     fn = f.node
     D = Defs(fn)
     n = 0
@@ -431,6 +451,7 @@ def rule_p9(f, R):
 
 def rule_p5_producer(f, R):
     """Producers build (angmom, exps, coeffs) records; column i of the coefficient matrix goes with the i-th letter."""
+    _CONST_SCOPE[:] = [(f.node, f.module)]
     fn = f.node
     D = Defs(fn)
     # names bound from `a, b = <match>.groups()`
